@@ -1,9 +1,153 @@
 import CotengraVerif.Driver.Util
+import CotengraVerif.Model.PlanOK
 
 namespace Cotengra.Driver.C11
-open Lean Cotengra Cotengra.Driver
+open Lean Cotengra Cotengra.Driver Cotengra.FA Cotengra.Bmm
 
-/-- ops of property C11 (name them "c11.<op>") -/
-def handlers : List (String × Handler) := []
+def intList (j : Json) : Except String (List Int) := do
+  (← arrOf j).mapM intOf
+
+def jInts (l : List Int) : Json := Json.arr (l.map jInt).toArray
+
+def jOpt (f : α → Json) : Option α → Json
+  | none => Json.null
+  | some v => f v
+
+def jPrep : Prep → Json
+  | .none => Json.null
+  | .perm p => jObj [("perm", jNats p)]
+  | .eins t d => jObj [("eins", jArr [jNats t, jNats d])]
+
+def jPlan (p : Plan) : Json :=
+  jObj [("eq_a", jPrep p.eqA), ("eq_b", jPrep p.eqB), ("new_shape_a", jOpt jNats p.shA),
+        ("new_shape_b", jOpt jNats p.shB), ("new_shape_ab", jOpt jNats p.shAB),
+        ("perm_ab", jOpt jNats p.permAB), ("pure", jBool p.pure)]
+
+def jSel (s : List (Option Nat)) : Json := jArr (s.map (jOpt jNat))
+
+def jSingle (p : SinglePlan) : Json :=
+  jObj [("diag", jOpt (fun ss => jArr (ss.map jSel)) p.diag), ("sum", jOpt jNats p.sumAxes),
+        ("perm", jOpt jNats p.perm)]
+
+def jFArr (x : FArr) : Json := jObj [("shape", jNats x.shape), ("data", jInts x.toList)]
+
+def optNats (j : Json) : Except String (Option (List Nat)) :=
+  match j with
+  | .null => pure none
+  | _ => do pure (some (← natList j))
+
+def prepOfJson (j : Json) : Except String Prep :=
+  match j with
+  | .null => pure .none
+  | _ =>
+    match j.getObjVal? "perm" with
+    | .ok p => do pure (.perm (← natList p))
+    | .error _ => do
+      match ← arrOf (← field j "eins") with
+      | [t, d] => pure (.eins (← natList t) (← natList d))
+      | _ => throw "eins: expected [term, desired]"
+
+def planOfJson (j : Json) : Except String Plan := do
+  pure { eqA := ← prepOfJson (fieldD j "eq_a" Json.null)
+         eqB := ← prepOfJson (fieldD j "eq_b" Json.null)
+         shA := ← optNats (fieldD j "new_shape_a" Json.null)
+         shB := ← optNats (fieldD j "new_shape_b" Json.null)
+         shAB := ← optNats (fieldD j "new_shape_ab" Json.null)
+         permAB := ← optNats (fieldD j "perm_ab" Json.null)
+         pure := ← (fieldD j "pure" (Json.bool false)).getBool? }
+
+/-- op `c11.plans`: one equation, many shape pairs; both variants of the shortcut test -/
+def plans : Handler := fun j => do
+  let aT ← natList (← field j "a")
+  let bT ← natList (← field j "b")
+  let out ← natList (← field j "out")
+  let cases ← arrOf (← field j "shapes")
+  let rows ← cases.mapM fun c => do
+    match ← arrOf c with
+    | [sa, sb] =>
+      let shA ← natList sa
+      let shB ← natList sb
+      pure (jObj [("head", jOpt jPlan (parseBmm false aT bT out shA shB)),
+                  ("fixed", jOpt jPlan (parseBmm true aT bT out shA shB))])
+    | _ => throw "expected [shape_a, shape_b]"
+  pure (jObj [("plans", jArr rows)])
+
+/-- op `c11.planok`: run the verified checker `planOK` on given (real) plans, one per shape pair -/
+def planok : Handler := fun j => do
+  let aT ← natList (← field j "a")
+  let bT ← natList (← field j "b")
+  let out ← natList (← field j "out")
+  let cases ← arrOf (← field j "cases")
+  let rows ← cases.mapM fun c => do
+    let shA ← natList (← field c "shape_a")
+    let shB ← natList (← field c "shape_b")
+    match c.getObjVal? "plan" with
+    | .ok .null => pure Json.null
+    | .ok pj => do pure (jBool (planOK aT bT out shA shB (← planOfJson pj)))
+    | .error _ => pure Json.null
+  pure (jObj [("ok", jArr rows)])
+
+/-- op `c11.eval2`: evaluate a plan (the model's, or a given real one) and the reference -/
+def eval2 : Handler := fun j => do
+  let aT ← natList (← field j "a")
+  let bT ← natList (← field j "b")
+  let out ← natList (← field j "out")
+  let shA ← natList (← field j "shape_a")
+  let shB ← natList (← field j "shape_b")
+  let xa := FArr.ofList shA (← intList (← field j "data_a"))
+  let xb := FArr.ofList shB (← intList (← field j "data_b"))
+  let lenCheck ← (fieldD j "len_check" (Json.bool false)).getBool?
+  let plan ← match j.getObjVal? "plan" with
+    | .ok pj => do pure (some (← planOfJson pj))
+    | .error _ => pure (parseBmm lenCheck aT bT out shA shB)
+  let value := plan.bind fun p => evalPlan p xa xb
+  pure (jObj [("plan", jOpt jPlan plan), ("value", jOpt jFArr value),
+              ("spec", jFArr (einsum2 aT bT out xa xb))])
+
+/-- op `c11.single`: `_parse_einsum_single` + three-step evaluation + reference -/
+def single : Handler := fun j => do
+  let lhs ← natList (← field j "lhs")
+  let out ← natList (← field j "out")
+  let sh ← natList (← field j "shape")
+  let plan := parseSingle lhs out sh
+  match j.getObjVal? "data" with
+  | .ok d =>
+    let x := FArr.ofList sh (← intList d)
+    let value := plan.bind fun p => evalSingle p x
+    pure (jObj [("plan", jOpt jSingle plan), ("value", jOpt jFArr value),
+                ("spec", jFArr (einsum1 lhs out x))])
+  | .error _ => pure (jObj [("plan", jOpt jSingle plan)])
+
+/-- op `c11.sanitize`: `_sanitize_equation` on code points -/
+def sanitizeOp : Handler := fun j => do
+  let eq ← natList (← field j "eq")
+  match sanitize eq with
+  | .ok (lhs, out) => pure (jObj [("lhs", jNats lhs), ("out", jNats out)])
+  | .error .notImplemented => pure (jObj [("err", jStr "NotImplementedError")])
+  | .error .value => pure (jObj [("err", jStr "ValueError")])
+
+def axesOf (j : Json) : Except String Axes :=
+  match j with
+  | .arr _ => do
+    match ← arrOf j with
+    | [a, b] => pure (.pair (← natList a) (← natList b))
+    | _ => throw "axes: expected int or [axes_a, axes_b]"
+  | _ => do pure (.num (← natOf j))
+
+/-- op `c11.tdeq`: the equation built by `_parse_tensordot_axes_to_matmul`, and its plan -/
+def tdeq : Handler := fun j => do
+  let axes ← axesOf (← field j "axes")
+  let shA ← natList (← field j "shape_a")
+  let shB ← natList (← field j "shape_b")
+  match tensordotEq axes shA shB with
+  | none => pure (jObj [("err", jStr "ValueError")])
+  | some (a, b, o) =>
+    pure (jObj [("a", jNats a), ("b", jNats b), ("out", jNats o),
+                ("head", jOpt jPlan (parseBmm false a b o shA shB)),
+                ("fixed", jOpt jPlan (parseBmm true a b o shA shB))])
+
+def handlers : List (String × Handler) :=
+  [("c11.plans", plans), ("c11.planok", planok), ("c11.eval2", eval2), ("c11.single", single),
+   ("c11.sanitize", sanitizeOp), ("c11.tdeq", tdeq)]
 
 end Cotengra.Driver.C11
